@@ -914,6 +914,8 @@ impl<T> Sender<T> {
                     return Err(SendErrorTimeout::Closed);
                 }
             }
+            // data is moved to the receiver, it should not be dropped here
+            core::mem::forget(d);
             Ok(())
         }
         // if the queue is not empty send the data
